@@ -1,4 +1,5 @@
-(* cpl.Model.finish (logics/cpl.py l.49-95) as coded: the identity / existence
+(* cpl.Model.finish BEFORE the fix commits 08fe120 / 422cec3 / a424a77 (kept as the
+   documented old behaviour; the current code is modelled in ClassicalFix.v): the identity / existence
    completion of the classical family (CPL, CFOL, K, D, T, S4, S5).
 
    The code iterates over Python sets (self.constants) and dict keys
@@ -102,7 +103,7 @@ Definition cl_complete (cord : list nat) (pord : nat -> list pred) (st : state) 
 
 (* Model.finish for every logic: the classical family runs the completion
    between _complete_frames and the generic finish *)
-Definition finish (L : mlogic) (cord : list nat) (pord : nat -> list pred) (st : state)
+Definition finish_old (L : mlogic) (cord : list nat) (pord : nat -> list pred) (st : state)
   : option state :=
   if ml_classical L then
     match complete_frames L st with
@@ -110,23 +111,17 @@ Definition finish (L : mlogic) (cord : list nat) (pord : nat -> list pred) (st :
     | Some st1 =>
         match cl_complete cord pord st1 with
         | None => None
-        | Some st2 => base_finish L st2
+        | Some st2 => base_finish_old L st2
         end
     end
-  else base_finish L st.
+  else base_finish_old L st.
 
 (* the natural orders: insertion order of the model's own lists *)
 Definition nat_pord (st : state) (w : nat) : list pred := pkeys_of st w.
 
-Definition run (L : mlogic) (cord : list nat) (pord : nat -> list pred) (os : list op)
+Definition run_old (L : mlogic) (cord : list nat) (pord : nat -> list pred) (os : list op)
   : option state :=
   match apply_ops L init_state os with
   | None => None
-  | Some st => finish L cord pord st
-  end.
-
-Definition finish_nat (L : mlogic) (st : state) : option state :=
-  match complete_frames L st with
-  | None => None
-  | Some st1 => finish L (s_consts st) (pkeys_of st1) st
+  | Some st => finish_old L cord pord st
   end.
